@@ -85,8 +85,13 @@ type Step struct {
 type StopSpec struct {
 	// AtMs >= 0: cancel at this virtual time after Run was started (Steps are ignored);
 	// AtMs < 0: cancel after the last step.
-	AtMs      int  `json:"atMs"`
-	OnGrid    bool `json:"onGrid,omitempty"` // cancel exactly on the millisecond grid (may coincide with a tick)
+	AtMs   int  `json:"atMs"`
+	OnGrid bool `json:"onGrid,omitempty"` // cancel exactly on the millisecond grid (may coincide with a tick)
+	// MidTick (with AtMs < 0): the cancellation happens from inside a device write of the control cycle
+	// that follows the last step, and that write is then held for HoldMs virtual milliseconds - the
+	// harness owns the schedule "stop request arrives while a control cycle is in flight".
+	MidTick   bool `json:"midTick,omitempty"`
+	HoldMs    int  `json:"holdMs,omitempty"`
 	PwmWrite  int  `json:"pwmWrite,omitempty"`
 	ModeWrite int  `json:"modeWrite,omitempty"`
 	ModeRead  int  `json:"modeRead,omitempty"`
@@ -125,19 +130,20 @@ type Obs struct {
 }
 
 type LoopResult struct {
-	Started    bool       `json:"started"` // regulation began (first curve evaluation seen)
-	PreWrites  []WriteRec `json:"preWrites,omitempty"`
-	Obs        []Obs      `json:"obs"`
-	Ended      bool       `json:"ended"` // Run returned before it was cancelled
-	EndedStep  int        `json:"endedStep"`
-	RunErr     string     `json:"runErr,omitempty"`
-	Hung       bool       `json:"hung"` // Run did not return within 10 virtual minutes after cancellation
-	FinalPwm   int        `json:"finalPwm"`
-	FinalMode  int        `json:"finalMode"`
-	AllWrites  []WriteRec `json:"-"`
-	ModeWrites []WriteRec `json:"modeWrites,omitempty"`
-	RestoreLog []WriteRec `json:"restoreLog,omitempty"` // PWM writes after cancellation
-	FirstEval  time.Duration
+	Started      bool       `json:"started"` // regulation began (first curve evaluation seen)
+	PreWrites    []WriteRec `json:"preWrites,omitempty"`
+	Obs          []Obs      `json:"obs"`
+	Ended        bool       `json:"ended"` // Run returned before it was cancelled
+	EndedStep    int        `json:"endedStep"`
+	RunErr       string     `json:"runErr,omitempty"`
+	Hung         bool       `json:"hung"` // Run did not return within 40 virtual minutes after cancellation
+	MidTickFired bool       `json:"midTickFired,omitempty"`
+	FinalPwm     int        `json:"finalPwm"`
+	FinalMode    int        `json:"finalMode"`
+	AllWrites    []WriteRec `json:"-"`
+	ModeWrites   []WriteRec `json:"modeWrites,omitempty"`
+	RestoreLog   []WriteRec `json:"restoreLog,omitempty"` // PWM writes after cancellation
+	FirstEval    time.Duration
 	// ProbeEvals: curve evaluations during one extra tick after the last step (-1: not probed)
 	ProbeEvals  int        `json:"probeEvals"`
 	ProbeWrites []WriteRec `json:"probeWrites,omitempty"`
@@ -389,12 +395,22 @@ func RunLoopWith(t *testing.T, sc LoopScenario, given persistence.Persistence) (
 		go func() { done <- ctl.Run(ctx) }()
 
 		ended := false
-		finish := func() {
+		faultsApplied := false
+		restoreFrom := -1
+		applyRestoreFaults := func() {
+			if faultsApplied {
+				return
+			}
+			faultsApplied = true
 			// restoration faults come into force at the moment of cancellation
 			rig.Pwm.SetWriteMode(sc.Stop.PwmWrite)
 			rig.Enable.SetWriteMode(sc.Stop.ModeWrite)
 			rig.Enable.SetReadMode(sc.Stop.ModeRead)
-			nw := rig.Pwm.NumWrites()
+			restoreFrom = rig.Pwm.NumWrites()
+		}
+		finish := func() {
+			applyRestoreFaults()
+			nw := restoreFrom
 			cancel()
 			if !ended {
 				select {
@@ -546,7 +562,36 @@ func RunLoopWith(t *testing.T, sc LoopScenario, given persistence.Persistence) (
 		if !ended {
 			checkEnded(len(sc.Steps))
 		}
-		if !ended && sc.Stop.AtMs == -1 {
+		if !ended && sc.Stop.AtMs == -1 && sc.Stop.MidTick {
+			// stop request in the middle of the next control cycle
+			fired := false
+			hook := func(int) {
+				if fired {
+					return
+				}
+				fired = true
+				applyRestoreFaults()
+				cancel()
+				time.Sleep(time.Duration(sc.Stop.HoldMs)*time.Millisecond + 3*time.Microsecond)
+			}
+			hasMode := sc.Fan.Kind == "hwmon" && !sc.Fan.NoEnable
+			if hasMode {
+				rig.Enable.SetBeforeWrite(hook) // the manual-mode write happens in every cycle
+			} else {
+				rig.Pwm.SetBeforeWrite(hook)
+				last := 0
+				if len(sc.Steps) > 0 {
+					last = sc.Steps[len(sc.Steps)-1].Curve
+				}
+				rig.Curve.Set((last + 97) % 256) // a different target, so that this cycle writes the PWM
+			}
+			time.Sleep(tick + time.Duration(sc.Stop.HoldMs)*time.Millisecond)
+			synctest.Wait()
+			res.MidTickFired = fired
+			rig.Enable.SetBeforeWrite(nil)
+			rig.Pwm.SetBeforeWrite(nil)
+			res.ProbeEvals = -1
+		} else if !ended && sc.Stop.AtMs == -1 {
 			// probe tick: does regulation still go on? (a fan with an RPM monitor keeps Run alive
 			// after a control error, so "Run returned" cannot be used to see that regulation ended)
 			time.Sleep(tick)
